@@ -6,6 +6,9 @@ import (
 	"encoding/base64"
 	"fmt"
 	"math"
+	"sort"
+	"sync"
+	"time"
 )
 
 func init() { corrs["C15"] = corrC15 }
@@ -219,8 +222,155 @@ func corrC15(outDir string, seed uint64, tier string, replay string) *report {
 			}
 		}
 	}
+	// ---- sessions: many calls of ALL schemes mixed (sequentially, then from 8 goroutines) over ONE known stream ----
+	// whatever the library does between the source and the salt (read sizes, buffering), every salt must be made of
+	// source bytes that no other salt was made of: the raw salt (or the low six bits of consecutive bytes) is looked up
+	// in the stream and the windows of different calls must not overlap; bulk reads are served slowly (a blocking
+	// entropy source), which is when refills race
+	{
+		streamLen := 1 << 20
+		stream := newRng(seed ^ 0xC15C15).bytes(streamLen)
+		low6 := make([]byte, streamLen)
+		for i, b := range stream {
+			low6[i] = b & 63
+		}
+		type made struct {
+			scheme string
+			salt   string
+		}
+		session := func(label string, workers, calls int) {
+			src := &sessionReader{data: stream}
+			crand.Reader = src
+			var mu sync.Mutex
+			var all []made
+			var wg sync.WaitGroup
+			for w := 0; w < workers; w++ {
+				wg.Add(1)
+				wr := newRng(seed*31 + uint64(w) + uint64(len(label)))
+				go func() {
+					defer wg.Done()
+					for k := 0; k < calls; k++ {
+						sc := schemes[wr.intn(len(schemes))]
+						if sc.name == "nthash" || sc.name == "des" || sc.name == "desext" {
+							continue // no salt / salts too short to be located unambiguously (12 and 24 bits)
+						}
+						h, err := sc.newHash("pw", 0)
+						if err != nil {
+							continue
+						}
+						p, perr := sc.params(h)
+						if perr != nil {
+							continue
+						}
+						mu.Lock()
+						all = append(all, made{sc.name, string(p.salt)})
+						mu.Unlock()
+					}
+				}()
+			}
+			wg.Wait()
+			crand.Reader = old
+			type win struct{ lo, hi int }
+			var wins []win
+			dup := map[string]bool{}
+			for _, m := range all {
+				var needle, hay []byte
+				switch m.scheme {
+				case "bcrypt":
+					raw, err := base64.NewEncoding(alphaBcrypt).WithPadding(base64.NoPadding).DecodeString(m.salt)
+					if err != nil {
+						continue
+					}
+					needle, hay = raw, stream
+				case "argon2":
+					raw, err := base64.RawStdEncoding.DecodeString(m.salt)
+					if err != nil {
+						continue
+					}
+					needle, hay = raw, stream
+				default:
+					needle = make([]byte, len(m.salt))
+					for i := range needle {
+						needle[i] = byte(bytes.IndexByte([]byte(alphaCrypt), m.salt[i]))
+					}
+					hay = low6
+				}
+				at := bytes.Index(hay[:src.pos()], needle)
+				if workers > 1 {
+					// concurrent callers interleave their reads: a salt need not be made of CONSECUTIVE source bytes;
+					// what remains decidable is that no two salts are equal and that none is padded with a constant
+					run, maxRun := 1, 1
+					for i := 1; i < len(needle); i++ {
+						if needle[i] == needle[i-1] {
+							run++
+							if run > maxRun {
+								maxRun = run
+							}
+						} else {
+							run = 1
+						}
+					}
+					if maxRun >= 6 {
+						rep.fail(map[string]interface{}{"session": label, "scheme": m.scheme, "salt": m.salt}, "full-entropy salt bytes", fmt.Sprintf("%d equal bytes in a row", maxRun), "a salt is padded with a constant instead of random bytes")
+					}
+					if dup[m.salt] {
+						rep.fail(map[string]interface{}{"session": label, "scheme": m.scheme, "salt": m.salt}, "all salts of the session distinct", "the same salt twice", "a salt repeated across concurrent calls")
+					}
+					dup[m.salt] = true
+					rep.bump("session_salts_" + label)
+					continue
+				}
+				if at < 0 {
+					rep.fail(map[string]interface{}{"session": label, "scheme": m.scheme, "salt": m.salt, "source_bytes_consumed": src.pos()},
+						"the salt encodes consecutive bytes delivered by crypto/rand.Reader during the session", "no such bytes in what the source delivered",
+						"a salt is not made of the random bytes drawn (zero-filled, truncated or invented bytes)")
+					continue
+				}
+				wins = append(wins, win{at, at + len(needle)})
+				rep.bump("session_salts_" + label)
+			}
+			sort.Slice(wins, func(i, j int) bool { return wins[i].lo < wins[j].lo })
+			for i := 1; i < len(wins); i++ {
+				if wins[i].lo < wins[i-1].hi {
+					rep.fail(map[string]interface{}{"session": label, "stream_windows": fmt.Sprint(wins[i-1], wins[i])}, "every salt made of source bytes of its own",
+						"two salts of the session are made of the same source bytes", "random bytes reused across calls (salts repeat or overlap)")
+					break
+				}
+			}
+			rep.count("session:"+label, true)
+		}
+		nCalls := 6000
+		if tier == "thorough" {
+			nCalls = 60000
+		}
+		session("sequential", 1, nCalls)
+		session("concurrent", 8, nCalls/8)
+	}
 	must(cs.flush())
 	rep.CaseSets = []string{"C15_salt"}
 	rep.Rule = "scripted part: crypto/rand.Reader replaced by a known byte stream (random, constant, low-bits-only, high-bits-set); the salt NewHash produced (read back through Params/Salt) vs the Coq model and vs the documented construction; sha1 random rounds vs its formula and window. Real-source part: N calls per scheme: salts pairwise distinct (48-bit salts and larger; for the 12- and 24-bit salts of DES / extended DES the number of repeats is bounded by expectation + 8.5 sigma), only alphabet symbols, symbol frequencies within 8.5 sigma (thorough: every symbol at every position). Every case non-trivial; distinct by (scheme, stream) / call index."
 	return rep
 }
+
+// sessionReader serves one long known stream to every reader of crypto/rand (thread-safe; wraps around never: the
+// stream is longer than any session consumes); reads of 64 bytes and more are delayed like a blocking entropy source
+type sessionReader struct {
+	mu   sync.Mutex
+	data []byte
+	off  int
+}
+
+func (s *sessionReader) Read(p []byte) (int, error) {
+	if len(p) >= 64 {
+		time.Sleep(30 * time.Microsecond)
+	}
+	s.mu.Lock()
+	defer s.mu.Unlock()
+	if s.off+len(p) > len(s.data) {
+		return 0, fmt.Errorf("session stream exhausted")
+	}
+	n := copy(p, s.data[s.off:])
+	s.off += n
+	return n, nil
+}
+func (s *sessionReader) pos() int { s.mu.Lock(); defer s.mu.Unlock(); return s.off }
